@@ -129,3 +129,23 @@ def leaf_paths(d, prefix=''):
         else:
             out.append(prefix + k)
     return out
+
+
+def from_gen_schema(g, name='D'):
+    """a message description for a generator schema (gen.DEFAULT_SCHEMA-style): numbers are float64, arrays of variable length"""
+    fields = {}
+    for k, t in g.items():
+        fields[k] = _desc_of(t, name + '_' + k)
+    return ('msg', name, fields, {})
+
+
+def _desc_of(t, name):
+    if t == NUM:
+        return ('prim', 'float64', NUM)
+    if t == BOOL:
+        return ('prim', 'bool', BOOL)
+    if t == STR:
+        return ('prim', 'string', STR)
+    if t[0] == 'arr':
+        return ('arr', name + '[]', _desc_of(t[1], name), -1)
+    return from_gen_schema(t[1], name)
